@@ -231,6 +231,12 @@ class Owner(callbacks.Plugin):
                'Owner isn\'t first callback: %r' % irc.callbacks
         if ircmsgs.isCtcp(msg):
             return
+        if not ircutils.isUserHostmask(msg.prefix):
+            # Not sent by a user (a server, a service, a gateway that relays
+            # with a bare nick): there is nobody to check capabilities
+            # against, and ircdb would take such a prefix for an account
+            # *name*.  No commands for such senders.
+            return
         s = callbacks.addressed(irc, msg)
         if s:
             ignored = ircdb.checkIgnored(msg.prefix)
